@@ -409,6 +409,14 @@ def eBinUnPredNoParen : E → Bool
 
 def wrapForParent (e : E) (p : PK) : E := if pkBinUnPred p && eBinUnPredNoParen e then .paren e else e
 
+/-- the variant that skips the parentheses when the argument is the same operation as its new parent ("such a chain is
+    flattened anyway" — true for AND / OR / + / *, false for `-`), kept for the witness -/
+def wrapForParentSkipSameOp (e : E) (p : PK) : E :=
+  let sameOp := match e, p with
+    | .and _ _, .and | .or _ _, .or | .add _ _, .add | .sub _ _, .sub | .mul _ _, .mul | .not _, .not | .neg _, .neg => true
+    | _, _ => false
+  if pkBinUnPred p && eBinUnPredNoParen e && !sameOp then .paren e else e
+
 /-! ## simplify_conditionals -/
 
 /-- `reverse kept ++ rest` on the `cons`-encoded list -/
@@ -495,13 +503,18 @@ def mkCmpLike (k : Option Cmp) (a b : E) : E :=
   | some op => .cmp op a b
   | none => .is a b
 
+/-- b0a036f: a NOT subject of the `IS NULL` guards is parenthesised (`NOT x IS NULL` would parse back as NOT (x IS NULL)) -/
+def wrapNotSubject : E → E
+  | .not a => .paren (.not a)
+  | e => e
+
 def coalesceRewrite (skipNull : Bool) (k : Option Cmp) (coalesceLeft : Bool) (first rest other : E) : Option E :=
   if !isConstant other then none else
   match splitAtConst skipNull rest with
   | none => none
   | some (pre, c) =>
     let truncated := E.coalesce (.cons first pre)
-    let this := if pre = .nil then first else truncated
+    let this := wrapNotSubject (if pre = .nil then first else truncated)
     let exprCopy := if coalesceLeft then mkCmpLike k truncated other else mkCmpLike k other truncated
     let constCmp := if coalesceLeft then mkCmpLike k c other else mkCmpLike k other c
     some (.paren (mkOr (mkAnd (.not (.is this .null)) exprCopy) (mkAnd (.is this .null) constCmp)))
